@@ -321,6 +321,16 @@ func Special(a int, b int, s string, xs []int) int {
 		return specialHeader() + fmt.Sprintf("func Special(a int, b int, s string, xs []int) int {\n\tn, m := len(xs)+%d, len(s)+1\n\tlast, total := 0, 0\n\tfor i := 0; i < n; i++ {\n\t\ttotal += last\n\t\tj := 0\n\t\tfor ; j < n; j++ {\n\t\t\ttotal += i ^ j\n\t\t}\n\t\tk := 0\n\t\tfor ; k < m; k++ {\n\t\t\ttotal -= k & i\n\t\t}\n\t\tlast = %s\n\t}\n\treturn total*%d + a\n}\n", k1, which, k2)
 	}
 	out = append(out, special{Name: "exit-value-of-sibling-counter-carried", Family: "nested-iv", P: carried("j"), Q: carried("k")})
+	// the type a constant is boxed with: any(int32(5)) and any(int64(5)) are different values
+	boxed := func(t string) string {
+		return specialHeader() + fmt.Sprintf("func pick() any {\n\treturn %s(%d)\n}\n\nfunc Special(a int, b int, s string, xs []int) int {\n\tswitch v := pick().(type) {\n\tcase int32:\n\t\treturn int(v) + a\n\tcase int64:\n\t\treturn int(v) - b\n\t}\n\treturn 0\n}\n", t, k1+4)
+	}
+	out = append(out, special{Name: "constant-boxed-with-another-type", Family: "boxed-type", P: boxed("int32"), Q: boxed("int64"), Changed: "pick"})
+	// integer constants that only fit a uint64: kept when all literals are kept
+	bigc := func(c string) string {
+		return specialHeader() + fmt.Sprintf("func Special(a int, b int, s string, xs []int) int {\n\tu := uint64(a) + %s\n\treturn int(u>>40) + int(u&0xff) + b\n}\n", c)
+	}
+	out = append(out, special{Name: "uint64-constant-above-maxint64", Family: "big-constant", P: bigc("0x8000000000000001"), Q: bigc("0x8000000000000002")})
 	// 12. two counters of one loop with the same start and step but different integer types: the narrow
 	// one wraps after 256 iterations
 	wrapx := func(idx string) string {
